@@ -4,6 +4,29 @@ Apply /verif/seeded/<name>/patch.diff to /repo, run the named checks (default: t
 was seeded for), undo the patch, and record the outcome in /verif/seeded/<name>/meta.json."""
 import json, os, subprocess, sys, time
 args = sys.argv[1:]
+REPO = os.environ.get('VERIF_REPO') or '/repo'
+HERE = os.path.dirname(os.path.dirname(os.path.abspath(__file__)))
+if args and args[0] == '--mutants':
+    # run every /verif/mutants/<PROP>-m<k>.diff against the check of its property (and nothing is recorded
+    # but the printed lines): used from `vp run --with-repo` with VERIF_REPO=$VP_RUN_REPO
+    import glob
+    only = args[1:]
+    for f in sorted(glob.glob(HERE + '/mutants/*.diff')):
+        nm = os.path.basename(f)[:-5]
+        if only and not any(nm.startswith(o) for o in only):
+            continue
+        pid = nm.split('-')[0]
+        subprocess.run(['git', '-C', REPO, 'checkout', '--', '.'])
+        r = subprocess.run(['git', '-C', REPO, 'apply', f], capture_output=True, text=True)
+        if r.returncode != 0:
+            print('MUTANT %s apply-failed' % nm, flush=True); continue
+        t0 = time.time()
+        p = subprocess.run([HERE + '/check', pid, 'quick'], cwd=HERE, capture_output=True, text=True)
+        viol = [l for l in p.stdout.splitlines() if l.startswith('VIOLATION')]
+        det = [l.strip() for l in p.stderr.splitlines() if l.startswith('  ')][:2]
+        print('MUTANT %s on %s: exit=%d violations=%d %.0fs | %s' % (nm, pid, p.returncode, len(viol), time.time() - t0, ' // '.join(det)[:300]), flush=True)
+        subprocess.run(['git', '-C', REPO, 'checkout', '--', '.'])
+    sys.exit(0)
 name = args[0]
 tier = 'quick'
 ids = []
@@ -21,10 +44,10 @@ meta_p = d + '/meta.json'
 meta = json.load(open(meta_p)) if os.path.exists(meta_p) else {}
 if not ids:
     ids = [meta.get('property') or name.split('-')[0]]
-st = subprocess.run(['git', '-C', '/repo', 'status', '--porcelain'], capture_output=True, text=True).stdout.strip()
+st = subprocess.run(['git', '-C', REPO, 'status', '--porcelain'], capture_output=True, text=True).stdout.strip()
 if st:
     print('refusing: /repo is not clean:\n' + st); sys.exit(3)
-r = subprocess.run(['git', '-C', '/repo', 'apply', d + '/patch.diff'], capture_output=True, text=True)
+r = subprocess.run(['git', '-C', REPO, 'apply', d + '/patch.diff'], capture_output=True, text=True)
 if r.returncode != 0:
     print('patch does not apply:', r.stderr); sys.exit(3)
 results = meta.setdefault('runs', {})
@@ -40,7 +63,7 @@ try:
         for l in detail[:4]:
             print('   ', l[:300])
 finally:
-    subprocess.run(['git', '-C', '/repo', 'checkout', '--', '.'])
-    subprocess.run(['git', '-C', '/repo', 'clean', '-fdq', 'src', 'tests'], capture_output=True)
+    subprocess.run(['git', '-C', REPO, 'checkout', '--', '.'])
+    subprocess.run(['git', '-C', REPO, 'clean', '-fdq', 'src', 'tests'], capture_output=True)
 meta['detected_by'] = sorted({k for k, v in results.items() if v['exit'] == 1 and v['violations'] > 0})
 json.dump(meta, open(meta_p, 'w'), indent=1, ensure_ascii=False)
